@@ -99,6 +99,7 @@ Inductive hop :=
 | HSnap (s : snap)
 | HLoad (dk : cdisk) (now : Z) (ob : lobs)     (* start-up on a crash image; the running history is not affected *)
 | HArchive (sched : list (list op * ftag)) (last : list op) (ob : carchive)
+| HSetOffset (o : Z)                           (* test hook: the report window is moved (reaching the end of the uint32 range) *)
 | HResend (id origin : Z) (hist : bytes) (latest : Z) (sigs : list (bytes * bytes)) (observed : list bytes).
                                                (* the datagrams a real client retransmitted in one sync round against this state *)
                                                (* archive request with write bursts in the gaps between the file reads *)
@@ -164,6 +165,11 @@ Fixpoint run_hist (t : sigtable) (tk : bytes) (fresh : bytes * bytes) (st : stat
       let '(st1, ar) := archive_run (tverify t) nosign nosb st empty_archive sched in
       let ar' := finish_archive (tverify t) nosign nosb st1 ar last in
       if archive_matches ar' ob then run_hist t tk fresh (run (tverify t) nosign nosb st1 last) h' (S i) else Some i
+  | HSetOffset o :: h' =>
+      let m0 := mm st in
+      run_hist t tk fresh {| mm := {| equipment := equipment m0; index := index m0; bans := bans m0; reports := reports m0;
+                                      impact := impact m0; offset := o; history := history m0; gca := gca m0;
+                                      gca_avail := gca_avail m0; tempkey := tempkey m0; skeys := skeys m0 |}; dd := dd st |} h' (S i)
   | HResend id origin hist latest sigs observed :: h' =>
       if resend_matches st id origin hist latest sigs observed then run_hist t tk fresh st h' (S i) else Some i
   | HLoad c now ob :: h' => if load_matches t tk fresh c now ob then run_hist t tk fresh st h' (S i) else Some i
